@@ -49,7 +49,7 @@ var labels = []label{
 	{"b", true, ""},
 	{"f1.pkg", false, "X 1"},
 	{"f2.pkg", false, "X 1"}, // ties with f1.pkg on name+version
-	{"f3.pkg", false, "W 2"},
+	{"f3.pkg", false, "X-a 2"}, // "X" is a proper prefix of this name and '-' sorts below most separators a joined key might use
 	{"f4.pkg", false, "X 0"}, // ties on name only
 }
 
@@ -436,6 +436,17 @@ func gitignoreRoots(r *ev.Run) {
 				sort.Strings(out)
 				return out
 			}
+			// one root, every listing order of its directories: a skipped directory listed BEFORE an
+			// ignored file must not disturb the patterns that apply to its later siblings
+			canonical := one([]*memfs.Node{r1})
+			perms := allOrders(r1, func(desc string) {
+				got := one([]*memfs.Node{r1})
+				r.Evals.Add(1)
+				if !eq(got, canonical) {
+					r.Violation("package-multiset-depends-on-enumeration", fmt.Sprintf("gitignore %q, skipped directory %q, listing %s: packages %q, canonical listing %q", body, skipAt, desc, got, canonical), map[string]any{"gitignore": body, "skip": skipAt, "listing": desc})
+				}
+			})
+			r.Nontrivial.Add(int64(perms))
 			want := sorted(append(one([]*memfs.Node{r1}), one([]*memfs.Node{r2})...))
 			for _, order := range [][]*memfs.Node{{r1, r2}, {r2, r1}} {
 				got := one(order)
@@ -643,5 +654,5 @@ func main() {
 	failingFamily(r)
 	r.Set("bound", map[string]any{"max_nodes_completed": completed})
 	r.Assume("Go map iteration order itself cannot be controlled; its consequence (the order of the extractor/detector lists) is enumerated instead")
-	r.Finish(fmt.Sprintf("every tree with <=%d nodes over {dir a, dir b, f1.pkg..f4.pkg with tying contents} x every combination of per-directory listing permutations x 10 extractor-list orders (all rotations of the canonical order and of its reverse) x 2 detector-list orders, all compared with the canonical-order scan of the same tree (key sequences, full multisets, statuses) + sortedness; plus every ordered selection of 2..3 roots among the top-level sub-trees and the whole tree vs the union of single-root scans, virtual roots and host-path roots with StoreAbsolutePath; plus the failing family: one extractor failing on N files (N up to 25, thorough 257) listed in 5 orders and split over two roots, statuses compared up to the order of failure-reason lines (with one result-yielding file first, last and in between); two roots with .gitignore files and skipped directories, both root orders, vs the union of single-root scans. non-trivial = (tree, listing vector) with >=2 packages and a directory with >=2 entries, or a multi-root selection with >=1 package", maxNodes), completed == maxNodes)
+	r.Finish(fmt.Sprintf("every tree with <=%d nodes over {dir a, dir b, f1.pkg..f4.pkg with tying contents (names X, X, X-a, X)} x every combination of per-directory listing permutations x 10 extractor-list orders (all rotations of the canonical order and of its reverse) x 2 detector-list orders, all compared with the canonical-order scan of the same tree (key sequences, full multisets, statuses) + sortedness; plus every ordered selection of 2..3 roots among the top-level sub-trees and the whole tree vs the union of single-root scans, virtual roots and host-path roots with StoreAbsolutePath; plus the failing family: one extractor failing on N files (N up to 25, thorough 257) listed in 5 orders and split over two roots, statuses compared up to the order of failure-reason lines (with one result-yielding file first, last and in between); a root with a .gitignore and a skipped directory under every listing order; two such roots, both root orders, vs the union of single-root scans. non-trivial = (tree, listing vector) with >=2 packages and a directory with >=2 entries, or a multi-root selection with >=1 package", maxNodes), completed == maxNodes)
 }
